@@ -26,19 +26,23 @@ RULE = ("random ADMGs with 1-5 nodes (quick: mostly <=4) x conjunctions of 1-4 c
         "has >= 2 conjuncts, at least one counterfactual world, the graph has an edge, and the construction merged at "
         "least one node pair or reported 'inconsistent'.")
 ASSUMPTIONS = [
-    "probability clauses (P(event') = P(event); 'inconsistent' => P(event) = 0 in every model) are proved only RELATIVE to "
-    "Lemma 24 of Shpitser-Pearl for each merge the construction performs (Props/C18.lean cg_prob_partial; Lemma 24 for the "
-    "test as coded is the OPEN part); unconditionally they are decided here by correspondence + exact evaluation on sampled "
-    "functional SCMs (8 models per case, cardinalities 2-3)",
-    "Python iterates over `worlds` (a set of frozensets): modelled as a list in an explicit order; the structural theorems "
-    "hold for every order; the harness forces the real code through every permutation (cg.extract_interventions patched "
-    "to return an ordered list) and also runs it unpatched",
-    "the input graph is a graph over plain variables (the model's input type is MG Name); graphs whose nodes are "
-    "counterfactual variables raise TypeError in the real code and are outside the model",
+    "the probability clauses are theorems about the model (Props/C18.lean cg_prob): for every functional SCM compatible with "
+    "the graph (Spec/Fscm.lean: finitely many independent exogenous variables with rational pmfs, mechanisms read parents in G, "
+    "noise shared only along bidirected edges; latents with parents and continuous variables are outside the class), "
+    "P(event') = P(event) and 'inconsistent' => P(event) = 0. Side condition not proved here: the nodes are processed "
+    "parents-first (`hpf`: what networkx's topological_sort returns; the model's topological_sort is compared with networkx "
+    "on every C14 run, its correctness theorem belongs to C14)",
+    "the theorems are about the hand-written model; that the model is cg.py is the correspondence check of this run "
+    "(every order of the worlds; sampling, not proof); the exact evaluation on sampled functional SCMs is an independent "
+    "second line (it is what found the NetworkXError defect ce3041e)",
+    "Python iterates over `worlds` (a set of frozensets): modelled as a list in an explicit order; every theorem holds for "
+    "every order; the harness forces the real code through every permutation (cg.extract_interventions patched to return an "
+    "ordered list) and also runs it unpatched",
+    "the input graph is a graph over plain variables without self-loop edges (the model's input type is MG Name); graphs whose "
+    "nodes are counterfactual variables raise TypeError in the real code and are outside the model",
     "Spec/Fscm.lean (the definition of the probability of a counterfactual event that the theorems are about) and the Python "
     "oracle are two independent implementations of the same semantics; they are compared exactly on random models and events "
     "on every run (cases of kind 'spec')",
-    "theorems assume what NxMixedGraph.from_edges guarantees (MG.WF) and, for acyclicity, an acyclic input graph",
 ]
 EXHAUSTIVE = {"quick": False, "thorough": True}   # thorough: every graph on <=2 nodes x every event with <=2 conjuncts
 LEANCHECK_MODULES = ["Y0.Model.Cg", "Y0.Props.C18"]
@@ -279,19 +283,19 @@ def finding_key(case, res):
 
 
 MANIFEST = {
-    "text": ("Partial proof. Lean theorems about the executable model of cg.py (Y0/Model/Cg.lean), for every graph, event and "
-             "every iteration order of the worlds: the construction is total on acyclic graphs (the only error is the one of "
-             "topological_sort on a cyclic input); the returned counterfactual graph is acyclic when the input graph is, its "
-             "nodes are exactly the ancestors (inside it) of the relabelled event, every relabelled event variable is a node, "
-             "every directed edge lies over an edge of the input graph, the graph is well formed (invariants carried through "
-             "the Lemma-24/25 merge loop); 'inconsistent' is only reported with a witnessing pair that passed the Lemma-24 test "
-             "while carrying two values. The two probability clauses are proved RELATIVE to Lemma 24 (cg_prob_partial): for every "
-             "functional SCM, if the two nodes of each merge the construction performs agree wherever the other conjuncts "
-             "hold, then P(event') = P(event) and 'inconsistent' implies P(event) = 0 (the whole loop is composed, the support "
-             "of the event is an invariant). Lemma 24 itself for the test as coded is not mechanised: unconditionally these two "
-             "clauses rest on the correspondence check plus exact evaluation of both events in sampled functional SCMs."),
+    "text": ("Proof. Lean theorems about the executable model of cg.py (Y0/Model/Cg.lean), for every graph, event and every "
+             "iteration order of the worlds. Probability clauses (cg_prob): for EVERY functional SCM compatible with the graph "
+             "and all base values, the relabelled event has the same probability as the original event and 'inconsistent' is "
+             "returned only if that probability is 0; Lemma 24 of Shpitser-Pearl is proved for the test as coded "
+             "(lemma24_of_test) from the structural equation of functional SCMs, with two invariants carried through the "
+             "Lemma-24/25 merge loop (every parent of every un-intervened node is represented by a parent node of equal value; "
+             "every prefix-restricted support of the event is unchanged). Structure: the construction is total on acyclic "
+             "graphs, the returned graph is acyclic, its nodes are exactly the ancestors (inside it) of the relabelled event, "
+             "every relabelled event variable is a node, every directed edge lies over an edge of the input graph. One side "
+             "condition of cg_prob is assumed, not proved: nodes are processed parents-first (topological_sort)."),
     "note": ("Trusted: Lean kernel + the three standard axioms; the hand-written model tied to cg.py by differential testing "
-             "under every order of the worlds set; Spec/Fscm.lean (functional SCMs with shared noise) is read, not verified. "
-             "The unconditional probability clauses are sampled (8 random models per case, exact rationals), not proved."),
-    "technique": "Lean 4 theorems (invariants through a fold; relative soundness of the merge loop) + differential correspondence under all set-iteration orders + exact-rational functional-SCM oracle",
+             "under every order of the worlds set (sampling); Spec/Fscm.lean (functional SCMs with shared noise: the model class "
+             "is discrete, independent root latents) is read, not verified, and is cross-checked against the independent Python "
+             "evaluator on every run. One defect found and fixed (ce3041e)."),
+    "technique": "Lean 4 theorems (loop invariants, structural equation, Lemma 24 for the coded test) + differential correspondence under all set-iteration orders + exact-rational functional-SCM oracle",
 }
